@@ -24,6 +24,8 @@ def attach(run):
         mons.append(ScheduleMonitor(run))
     if "C08.g" in cl and run.adapter.name in ("td3_lap", "td7", "mrq", "ddqn_per"):
         mons.append(PriorityMonitor(run))
+    if "C04.train" in cl and run.adapter.name == "mrq":
+        mons.append(TrainWindowMonitor(run))
     if "C15" in cl and run.adapter.name == "td7":
         mons.append(DeferredTrainingMonitor(run))
     if cl & {"C10.b", "C10.c"} and run.plan.get("supply_targets") and run.adapter.name in ("td3", "td3_lap"):
@@ -972,3 +974,72 @@ class PriorityMonitor:
             run.res.probe("priority_monotone_batches")
             if x.size > 1 and x.min() < 1.0 < x.max():
                 run.res.probe("td_errors_straddle_min_priority")
+
+
+class TrainWindowMonitor:
+    """C04 inside MR.Q training: every sub-trajectory the routine samples from the buffer IT created (replay_buffer=None)
+    is, up to its first terminated step, a contiguous single-episode run without a truncated step. The buffer class name
+    used by rl_blox.algorithm.mrq is replaced by a recording subclass of the real class."""
+
+    def __init__(self, run):
+        import importlib
+
+        self.run = run
+        self.mod = importlib.import_module("rl_blox.algorithm.mrq")
+        self.orig = self.mod.SubtrajectoryReplayBufferPER
+        mon = self
+        self.batches = []
+
+        class Recording(self.orig):
+            def sample_batch(self, batch_size, horizon, include_intermediate, rng):
+                out = super().sample_batch(batch_size, horizon, include_intermediate, rng)
+                if len(mon.batches) < 400:
+                    mon.batches.append((horizon, bool(include_intermediate), {k: np.asarray(getattr(out, k)) for k in out._fields}, mon.run.env.n_steps))
+                return out
+
+        self.mod.SubtrajectoryReplayBufferPER = Recording
+
+    def finish(self):
+        run = self.run
+        self.mod.SubtrajectoryReplayBufferPER = self.orig
+        steps = run.env.steps()
+        by_gid0 = {s["gid0"]: s for s in steps}
+        for h, full, f, n_at in self.batches:
+            term = f["terminated"].astype(int)
+            trunc = f["truncated"].astype(int)
+            B = term.shape[0]
+            for b in range(B):
+                first = f["observation"][b, 0] if full else f["observation"][b]
+                g = obs_gid(np.asarray(first).reshape(-1))
+                s0 = by_gid0.get(g)
+                if s0 is None:
+                    run.V("C04.written", f"sampled window {b} starts at observation #{g}, which was never the current observation of an environment step (never-written or pseudo row)")
+                    return
+                ks = np.nonzero(term[b])[0]
+                k = int(ks[0]) if len(ks) else h - 1
+                for j in range(k + 1):
+                    i = s0["i"] + j
+                    if i >= n_at:
+                        run.V("C04.window", f"window {b} (start env step {s0['i']}, horizon {h}) extends beyond the newest stored step {n_at - 1}: it crossed the write position")
+                        return
+                    s = steps[i]
+                    if s["ep"] != s0["ep"]:
+                        run.V("C04.window", f"window {b} (start env step {s0['i']} of episode {s0['ep']}, horizon {h}) runs into episode {s['ep']} without a terminated step in between")
+                        return
+                    if float(f["reward"][b, j]) != float(s["r"]) or int(term[b, j]) != int(s["term"]):
+                        run.V("C04.window", f"window {b} row {j}: reward / terminated {float(f['reward'][b, j])}/{int(term[b, j])} are not those of env step {i} ({s['r']}/{int(s['term'])})")
+                        return
+                    if int(trunc[b, j]) or s["trunc"]:
+                        run.V("C04.trunc", f"window {b} (start env step {s0['i']}, horizon {h}) contains the truncated env step {i}")
+                        return
+                    if full and obs_gid(np.asarray(f["observation"][b, j]).reshape(-1)) != s["gid0"]:
+                        run.V("C04.window", f"window {b} row {j}: observation is not that of env step {i}")
+                        return
+                last = steps[s0["i"] + k]
+                nob = f["next_observation"][b, k] if full else f["next_observation"][b]
+                if (full or k == h - 1) and not len(ks) and obs_gid(np.asarray(nob).reshape(-1)) != last["gid1"]:
+                    run.V("C04.reduced" if not full else "C04.window", f"window {b}: next_observation is not the successor of the window's last step (env step {last['i']})")
+                    return
+                run.res.probe("training_windows_checked")
+                if len(ks) and k < h - 1:
+                    run.res.probe("training_window_with_early_termination")
